@@ -62,9 +62,19 @@ def run(rep):
             rep.violation({'kind': 'lex', 'rec': x['rec'], 'clause': x['clause'], 'mentions_system_predicate': sysp,
                            'cache': f.name if x['rec'] == 'history' else ''}, x)
     rep.cov['evaluations'] = total
-    rep.cov['distinct_nontrivial'] = total
+    distinct = set()
+    for f in files:
+        for line in open(f):
+            c = json.loads(line)
+            if c['rec'] == 'rebuild':
+                distinct.add(('rebuild', json.dumps(c['item'])))
+            elif c['rec'] == 'history':
+                distinct.add(('history', f.name, c['id']))
+            else:
+                distinct.update(('matrix', c['id'], json.dumps(x)) for x in c['items'])
+    rep.cov['distinct_nontrivial'] = len(distinct)
     rep.cov['rule'] = ('records = 2 comparison matrices (all pairs and triples of ~90 items / ~14 arguments) + one rebuild record per '
                        'sub-item of the TLC-generated sentences + one record per construction history (depth %d over 4 ops x 6 items) '
-                       'under cache sizes 1,2,3' % depth)
+                       'under cache sizes 1,2,3; distinct = distinct items rebuilt + distinct (history, cache size) + distinct matrix items' % depth)
     with open(d / 'rebuild0.ndjson') as f:
         rep.sample(json.loads(f.readline()))
